@@ -289,6 +289,7 @@ func runC05(ctx Ctx) int {
 		}
 		return n
 	}(), k, len(c05Msg.Dims)))
+	runLongRuns(run, "C05")
 	return run.Finish()
 }
 
